@@ -249,7 +249,8 @@ def run_units(units, prop, seed, tier, jobs=None):
         env.update({"VERIF_SEED": str(seed), "VERIF_TIER": tier, "VERIF_PROP": prop,
                     "VERIF_REPORT": os.path.join(sdir, "report-%d.json" % i),
                     "VERIF_REPLAY_DIR": rdir, "VERIF_SCRATCH": os.path.join(sdir, "u%d" % i),
-                    "VERIF_UNIT": u.name, "VERIF_REPO": REPO})
+                    "VERIF_UNIT": u.name, "VERIF_REPO": REPO,
+                    "VERIF_REGRESSION_DIR": os.path.join(VERIF, "replays", prop)})
         os.makedirs(env["VERIF_SCRATCH"], exist_ok=True)
         env.update({k: str(v) for k, v in u.env.items()})
         t0 = time.time()
@@ -483,7 +484,7 @@ def rc_params(seed, n, size=None, extra=""):
     return s
 
 
-def replay_with(binary, extra_env=None, args_fn=None, timeout=300):
+def replay_with(binary, extra_env=None, args_fn=None, timeout=1500):
     """Returns replay_fn(path) -> True when the case FAILS again."""
     def fn(path):
         env = san_env()
